@@ -384,6 +384,11 @@ def Encoded.authorised (lowSOnly : Bool) (e : Encoded) (sender : Nat) (senderSig
 def minerPick (pool : List Tx) (time : Nat) : List Tx :=
   pool.filter (fun tx => !(decide (tx.exp < time) || tx.subs.any (fun s => decide (s.exp < time))))
 
+/-- what `MineBlock` hands to the assembler since fix 2e18e3d: the `GetTxs` result filtered by
+    `VerifyTxBody(chainID, header.Time, true)` (time part).  Before that fix it was `minerPick` itself. -/
+def minePack (pool : List Tx) (time : Nat) : List Tx :=
+  (minerPick pool time).filter (fun tx => tx.validAt time)
+
 /-! ### canonical dump for the correspondence harness -/
 
 def sortNat (l : List Nat) : List Nat := l.mergeSort (· ≤ ·)
